@@ -11,6 +11,7 @@ import Driver.C14
 import Driver.C19
 import Driver.C20
 import Driver.C11
+import Driver.C12
 
 open Driver Relic.Model
 
@@ -22,6 +23,7 @@ structure Conf where
   fp : Option C02.Env := none
   ep : Option C03.Env := none
   ep2 : Option C11.Env := none
+  pc : Option C12.Env := none
 
 def parseCfg (toks : List String) : Conf :=
   toks.foldl (fun c t =>
@@ -43,6 +45,8 @@ def dispatch (c : Conf) (op : String) (args : List String) (got : String) : Opti
     | some e => C03.handle e c.w op args got
     | none => none) <|> (C07.handle e01.cfg op args) <|> (C09.handle c.w c.size c.digs op args got) <|> (C14.handle op args) <|> (C15.handle c.w c.size op args got) <|> (C19.handle latch op args) <|> (C20.handle c.ep c.w op args got) <|> (C18.handle c.ep c.w op args got) <|> (match c.ep2 with
     | some e => C11.handle e c.w op args got
+    | none => none) <|> (match c.pc with
+    | some e => C12.handle e c.w op args got
     | none => none)
 
 def processLine (c : Conf) (line : String) : String :=
@@ -89,6 +93,18 @@ partial def loop (h : IO.FS.Stream) (out : IO.FS.Stream) (c : Conf) : IO Unit :=
       | none =>
         out.putStrLn (if got == "err" then "ok ep_param-rejected" else "FAIL S model=[] spec=[parsable ep_param] got=[" ++ got ++ "]")
         loop h out { c with ep := none }
+    | _ => out.putStrLn "skip"; loop h out c
+  else if line.startsWith "pc_param " then
+    match line.splitOn " => " with
+    | [_, got] =>
+      match C12.parseEnv got with
+      | some e =>
+        let bad := C12.checkParam e
+        out.putStrLn (if bad.isEmpty then "ok pc_param" else "FAIL S model=[] spec=[" ++ String.intercalate ";" bad ++ "] got=[" ++ got ++ "]")
+        loop h out { c with pc := some e }
+      | none =>
+        out.putStrLn (if got == "err" then "ok pc_param-rejected" else "FAIL S model=[] spec=[parsable pc_param] got=[" ++ got ++ "]")
+        loop h out { c with pc := none }
     | _ => out.putStrLn "skip"; loop h out c
   else if line.startsWith "ep2_param " then
     match line.splitOn " => " with
